@@ -77,6 +77,15 @@ type Toolbox struct {
 	walls   map[string][]time.Duration
 }
 
+// Sub returns a toolbox that uses the same plugin binaries with a scratch directory of its own
+// (one per pass of a multi-pass run, so labs and logs of different passes never collide).
+func (t *Toolbox) Sub(dir string) (*Toolbox, error) {
+	if err := os.MkdirAll(dir, 0o755); err != nil {
+		return nil, err
+	}
+	return &Toolbox{Scratch: dir, Bin: t.Bin, walls: map[string][]time.Duration{}}, nil
+}
+
 // NewScratch creates the per-process scratch directory (outside /repo, /verif, /tmp).
 func NewScratch() (string, error) {
 	base := envOr("VERIF_SCRATCH", "/var/tmp")
